@@ -357,8 +357,18 @@ def main(argv=None):
     jobs = [(prop, modname, i, a.tier, seed, excluded) for i in idxs]
     results = []
     if jobs:
-        with mp.Pool(min(a.jobs, len(jobs)), maxtasksperchild=1) as pool:
-            results = pool.map(_run_task, jobs, 1)
+        # A wall-clock budget for the whole run: hitting it is inconclusive (exit 2), never a verdict.
+        budget = float(os.environ.get("VERIF_TIMEOUT_S", "1800" if a.tier == "quick" else "14400"))
+        pool = mp.Pool(min(a.jobs, len(jobs)), maxtasksperchild=1)
+        try:
+            results = pool.map_async(_run_task, jobs, 1).get(budget)
+            pool.close()
+        except mp.TimeoutError:
+            pool.terminate()
+            print("HARNESS-ERROR %s: no result within %.0f s (inconclusive, not a verdict)" % (prop, budget))
+            return 2
+        finally:
+            pool.join()
 
     evaluations = 0
     nontrivial = set()
